@@ -6,10 +6,46 @@ relations, acyclic references) is evaluated by TLC on the tokenised output of
 every deck of the generator families, under random option combinations, with
 materials and boundary flags decorated onto the decks.
 """
+import glob
+import os
+import random
 import sys
 
-from .. import core
-from . import common_bool
+from .. import adeck, conv, core, deckrun, tlc
+from . import common_bool, common_univ
+
+DATA = os.path.join(conv.REPO, 't4_geom_convert', 'IntegrationTests', 'data')
+
+
+def integration_jobs(rng, thorough, start_tid):
+    """The repo's own integration decks under option sets (foreign decks: structure only)."""
+    sys.path.insert(0, conv.REPO)
+    try:
+        from t4_geom_convert.IntegrationTests.test_mcnp_conversion import get_options
+    except Exception:   # pylint: disable=broad-except
+        get_options = None
+    import pathlib
+    jobs, nd = [], {}
+    tid = start_tid
+    files = sorted(glob.glob(os.path.join(DATA, '*.imcnp')))
+    empty = adeck.normalise({'cells': [], 'surfs': []})
+    for path in files:
+        try:
+            base = list(get_options(pathlib.Path(path))[0]) if get_options else []
+        except Exception:   # pylint: disable=broad-except
+            base = []
+        enc = 'latin1' if 'latin1' in path else 'utf-8'
+        with open(path, 'rb') as f:
+            raw = f.read()
+        optsets = [[], ['--skip-deduplication'], ['--max-inline-score', '0'], ['--always-inline-filling', '--always-inline-filled']]
+        if not thorough:
+            optsets = [optsets[0], rng.choice(optsets[1:])]
+        for extra in optsets:
+            tid += 1
+            nd[tid] = empty
+            jobs.append({'tid': tid, 'deck': empty, 'opts': base + extra, 'text': raw.decode(enc),
+                         'name': os.path.basename(path), 'encoding': enc})
+    return jobs, nd
 
 OPTS = ['--skip-deduplication', '--always-inline-filling', '--always-inline-filled']
 DENS = ['-1.0', '-2.7', '-2.70', '0.05', '5-2', '-1']
@@ -32,6 +68,8 @@ def opts_of(deck, rng):
 def main():
     from .. import replay
     replay.maybe_replay('C08')
+    from .. import replay
+    replay.maybe_replay('C08')
     chk = core.Check('C08')
     thorough = chk.tier == 'thorough'
     core.lap('start')
@@ -40,10 +78,48 @@ def main():
     if not decks:
         chk.machinery('no deck generated')
         return chk.finish()
-    import random
     rng = random.Random(chk.seed)
     decks = [decorate(dict(d, cells=[dict(c) for c in d['cells']]), rng) for d in decks]
     recs, verdicts, nd = common_bool.run(chk, decks, 'valid', chk.seed, opts_of=opts_of, npts=8)
+    # further generator families and the repo's integration decks
+    try:
+        from . import c06
+        more = common_univ.generate(chk, thorough, chk.seed + 80, nquick=700, nthorough=7000)
+        more += c06.gen(chk, 'GenLat', thorough, chk.seed + 81, 200, 2000)
+        more += c06.gen(chk, 'GenHex', thorough, chk.seed + 82, 120, 1200)
+    except tlc.TLCFailure as exc:
+        chk.machinery(str(exc))
+        more = []
+    base_tid = max(nd) if nd else 0
+    jobs2, nd2 = [], {}
+    for i, d in enumerate(more):
+        d = adeck.decorate_materials(adeck.normalise(d), rng, spellings='canonical') if not any(c.get('mat') for c in d['cells']) \
+            else adeck.simple_materials(adeck.normalise(d))
+        d['pts'] = []
+        tid = base_tid + i + 1
+        nd2[tid] = d
+        opts = adeck.lattice_opts(d) + opts_of(d, rng)
+        if rng.random() < 0.35:
+            opts += ['--max-inline-score', '0'] if '--max-inline-score' not in opts else []
+        jobs2.append({'tid': tid, 'deck': d, 'opts': opts})
+    ijobs, ind = integration_jobs(rng, thorough, base_tid + len(more))
+    recs2 = [r for r in conv.run_batch(deckrun.run_deck, jobs2 + ijobs, chunksize=8)]
+    for r in recs2:
+        if 'machinery_error' in r:
+            chk.machinery(r['machinery_error'])
+    recs2 = [r for r in recs2 if 'machinery_error' not in r]
+    nd2.update(ind)
+    names = {j['tid']: j.get('name') for j in ijobs}
+    try:
+        verdicts2 = deckrun.validate(chk, recs2, nd2, 'valid')
+    except tlc.TLCFailure as exc:
+        chk.machinery(str(exc))
+        verdicts2 = {}
+    for r in recs2:
+        recs[r['tid']] = r
+        r['deckname'] = names.get(r['tid'])
+    verdicts.update(verdicts2)
+    nd.update(nd2)
     bad_kinds = lambda kind: kind != 'baddeck'
     def nontrivial(v, deck, feats):
         rec = recs[v['tid']]
@@ -56,7 +132,7 @@ def main():
                          'one UNION/INTE operator and one FICTIVE volume')
     chk.extra['exhaustive'] = False
     chk.assumptions += ['option sets are sampled per deck (dedup on/off, both inline flags, 4 inline scores)',
-                        'generator families: GenBool (more are added as the other checks grow)']
+                        'generator families: GenBool, GenUniv (incl. patently empty fillers), GenLat, GenHex, and the repo integration decks under option sets (a crash of an integration deck is reported too)']
     return chk.finish()
 
 
